@@ -16,6 +16,55 @@ def harness(c):
     return c.go_harness("linewriter", OVERLAY, "./cmd/verif_linewriter", tags="")
 
 
+def race_harness(c):
+    """the harness built with the race detector (needs cgo); None when that is not possible here"""
+    import hashlib
+    exe = os.path.join(vcheck.BUILD, "harness-linewriter-race-%s" % hashlib.sha1(vcheck.REPO.encode()).hexdigest()[:8])
+    ov = {"Replace": {os.path.join(vcheck.REPO, k): os.path.join(vcheck.VERIF, "harness", "linewriter", v) for k, v in OVERLAY.items()}}
+    ovp = exe + ".overlay.json"
+    env = dict(vcheck.GOENV)
+    env["CGO_ENABLED"] = "1"
+    with vcheck.Lock("go-linewriter-race"):
+        with open(ovp, "w") as f:
+            json.dump(ov, f)
+        rc, o = vcheck.sh(["go", "build", "-race", "-overlay", ovp, "-o", exe, "./cmd/verif_linewriter"], cwd=vcheck.REPO, env=env, timeout=1200)
+    if rc != 0:
+        c.log("race build not available:\n" + o[-1500:])
+        return None, o[-600:]
+    return exe, ""
+
+
+def race_run(c, viols):
+    """thorough tier: the process-running targets again under the race detector; a race in dawn's own code is a violation"""
+    exe, why = race_harness(c)
+    if not exe:
+        c.coverage["race_detector"] = "NOT RUN: go build -race failed here: " + why
+        c.assumptions.append("the race detector could not be used in this environment (go build -race failed); concurrent use of a "
+                             "line writer is then only caught through the lines it delivers")
+        return
+    env = dict(os.environ)
+    env["GORACE"] = "halt_on_error=0 exitcode=0"
+    p = subprocess.run([exe, "-seed", str(c.seed), "-tier", "race"], stdout=subprocess.PIPE, stderr=subprocess.PIPE, env=env, timeout=2400)
+    _, vs, stats = parse(p.stdout.decode("utf-8", "replace"))
+    viols += vs
+    err = p.stderr.decode("utf-8", "replace")
+    reports = [r for r in err.split("==================") if "WARNING: DATA RACE" in r]
+    own = []
+    for r in reports:
+        frames = [l.strip() for l in r.split("\n") if "github.com/pgavlin/dawn" in l and "(" in l]
+        if any("/cmd/verif_linewriter" not in l and "dawn.Verif" not in l and "verifSpy" not in l for l in frames):
+            own.append(r.strip())
+    c.coverage["race_detector"] = {"cases": stats.get("ev.proc.cases", 0), "process_bodies": stats.get("ev.proc.bodies.os", 0) + stats.get("ev.proc.bodies.sh", 0),
+                                   "race_reports": len(reports), "in_dawn_code": len(own)}
+    c.count("ev.race", stats.get("ev.runs", 0), sample={"judge": "go build -race: no data race reported in dawn's own code while targets run "
+                                                                 "processes that write to stdout and stderr", "reports": len(reports)})
+    if p.returncode != 0 and not reports:
+        c.broken.append("race harness exited %d" % p.returncode)
+    if own:
+        viols.append({"kind": "data-race", "detail": "the race detector reports a data race in dawn's code: " + own[0][:1500],
+                      "input": {"stream": "race", "seed": c.seed, "tier": "race", "reports": len(own)}})
+
+
 def parse(out):
     pairs, viols, stats = {}, [], {}
     for line in out.split("\n"):
@@ -52,6 +101,12 @@ def run(c):
         "a lone 'failed' is also what a target reports when its own up-to-date check fails (I/O error on a source): "
         "the body does not run, no 'evaluating' is reported (model: Facts.upToDateErr)",
         "a target one of whose dependencies failed for a reason other than missing/cyclic reports nothing (DESIGN.md §4)",
+        "C18_lines is about one writer receiving one sequence of Write calls (the line writer has no lock); the code establishes this by "
+        "making one identical writer the stdout and the stderr of a body and by passing both on unwrapped to os/exec and the shell "
+        "interpreter (single pipe, single copying goroutine): tie single_writer_ok; target bodies that run real processes (this binary in "
+        "-chatter mode through os.exec / sh.exec: whole lines alternately on stdout and stderr, 1..200 000 bytes, written in pieces, with "
+        "and without a final newline, GOMAXPROCS >= 4) must deliver exactly the lines written, in the order written; in the thorough "
+        "tier the same runs are repeated under go build -race",
         "in run(callback=…) builds the line writer delivers to the Events the project was loaded with; the relative order of "
         "those lines and the callback's target events is not judged (two consumers)",
         "which member of a dependency cycle detects it depends on the schedule: that one fact is taken from the observed error type",
@@ -63,7 +118,7 @@ def run(c):
     c.coverage["rule"] = (
         "line writer: every string over {a,\\n} up to length 6 (10 thorough) in every chunking, plus an empty chunk in every 7th case; "
         "every sequence of up to 4 (5) calls over six chunks and Flush (writer reused after Flush); seeded random long outputs over 8 symbols. "
-        "events: seeded random projects on disk (2-8 targets in 1-2 packages, random DAG, chunks with/without trailing newline, failing bodies, bodies that make the recording of their result fail, "
+        "events: seeded random projects on disk (2-8 targets in 1-2 packages, random DAG, chunks with/without trailing newline, failing bodies, bodies that make the recording of their result fail, bodies that run a real process through os.exec / sh.exec, "
         "target-level always, sources, sometimes a missing dependency, a dependency cycle, a source whose up-to-date check fails), "
         "each built through dawn.Load + Project.Run: dry run, build, dry run, rebuild of the unchanged tree, then a random subset of "
         "sub-target build, edit+build, always, second Run without reload, run(callback=…). A case is non-trivial when the model answer is "
@@ -99,11 +154,22 @@ def run(c):
                              "event; one run-done, last, with Run's error; evaluating <=> body ran; dry-run evaluating set == bodies of the next real build",
                     "runs": stats.get("ev.runs", 0)},
             hist={k: v for k, v in stats.items() if k.startswith("ev.")})
+    if c.tier == "thorough":
+        race_run(c, viols)
     report(c, viols)
     return c
 
 
 def replay(c, case):
+    if case.get("input", {}).get("stream") == "race":
+        viols = []
+        race_run(c, viols)
+        for v in viols:
+            print(v["detail"][:2000])
+        if viols:
+            print("VIOLATION property=C18 replay=(given)")
+            return 1
+        return 0
     exe = harness(c)
     rc, out = run_replay(exe, case["input"])
     print(out)
